@@ -260,6 +260,10 @@ class LabGen:
                 # aliases are never recursive by themselves: only backwards references
                 t = self.type_expr(i, 1, False) if r.random() < 0.6 else self.scalar()
                 t = self._strip_forward(t, i)
+                earlier = [x for x in self.types if x.kind == "alias"]
+                if earlier and r.random() < 0.25:
+                    # alias chains: an alias of an (alias of an ...) optional / collection / scalar
+                    t = r.choice(earlier).ref()
                 d.alias = t
                 if r.random() < p.safety and t["type"] == "primitive" and t["primitive"] not in ("BEARERTOKEN",):
                     d.safety = r.choice(SAFETIES)
